@@ -52,7 +52,10 @@ def font_units():
     if 'units' not in _gen:
         import core
         from translate import units
-        _gen['units'] = units.extract(core.REPO)
+        try:
+            _gen['units'] = units.extract(core.REPO)
+        except Exception:     # the translator has already reported the broken shape; keep generating with the documented estimates
+            return {'ex': Fraction(5), 'em': Fraction(11)}
     out = {}
     for u, a in _gen['units']['chain']:
         if u in ('em', 'ex') and a[0] == 'mul':
@@ -1138,11 +1141,27 @@ def balanced_delims(rng, o, c, depth, braces=True):
     return out
 
 
+def esc(c):
+    """the control symbol \\c (an escape token whose name is the character c)"""
+    return ['cs', 'inert', c, 0]
+
+
 def delim_cases(rng, n):
     out = []
     for _ in range(n):
         r = rng.random()
         fo = follow_tokens(rng)
+        if rng.random() < 0.12:
+            # absent grouping directly followed by the control symbol named like its opening delimiter: \[ \( \<
+            o, c = rng.choice(['[]', '()', '<>'])
+            fo2 = chs(' ' * rng.choice([0, 0, 1])) + [esc(o)] + text_tokens(rng, 0, 2) + rng.choice([[], [esc(c)]]) + fo
+            out.append(('groups', dict(kind='delim', op='grp', o=ord(o), c=ord(c), toks=fo2, nt=True, tags=['absent-then-escape:' + o],
+                                       expect=dict(toks=None, rest=fo2))))
+            # present grouping whose body contains \o and \c: they neither nest nor close
+            body = text_tokens(rng, 0, 2) + [esc(rng.choice([o, c]))] + text_tokens(rng, 0, 2) + rng.choice([[], [esc(c)], [esc(o)]])
+            out.append(('groups', dict(kind='delim', op='grp', o=ord(o), c=ord(c), toks=chs(o) + body + chs(c) + fo, nt=True,
+                                       tags=['escape-in-body:' + o], expect=dict(toks=body, rest=fo))))
+            continue
         if r < 0.35:
             body = balanced_braces(rng, rng.choice([1, 2, 3, 4]))
             toks = chs('{') + body + chs('}') + fo
@@ -1432,6 +1451,38 @@ def parse_case(rng):
     return None
 
 
+def escape_call_case(rng):
+    """absent optional argument followed by the control symbol named like its opener, at the end of the call or between
+    arguments (the next argument is then of type cs / Tok, which takes the token unexpanded)"""
+    o, c = rng.choice(['[]', '()', '<>'])
+    first = dict(name='arg', spec=None, type=rng.choice([None, 'str']), delim=None, subtype=None, expanded=1)
+    opt = dict(name='opt', spec=o + c, type=None, subtype=None, expanded=1)
+    w = text_tokens(rng, 1, 3)
+    val = [2, [wire_tok(t) for t in w]] if first['type'] is None else [4, S(''.join(chr(t[2]) for t in w))]
+    if first['type'] is None:
+        del first['delim']
+    toks = chs('{') + w + chs('}')
+    binds = {'arg': val, 'opt': [0]}
+    sp = chs(' ' * rng.choice([0, 0, 1]))
+    if rng.random() < 0.5:
+        args = [first, opt]
+        follow = sp + [esc(o)] + text_tokens(rng, 0, 3) + [esc(c)] + chs(' tail')
+        # blanks in front of what follows are skipped while looking for the optional argument
+        rest = follow[len(sp):]
+        tag = 'end-of-call'
+    else:
+        ty = rng.choice(['cs', 'Tok'])
+        nxt = dict(name='key', spec=None, type=ty, delim=None, subtype=None, expanded=0 if ty == 'cs' else 1)
+        args = [first, opt, nxt]
+        toks = toks + sp + [esc(o)]
+        binds['key'] = [3, wire_tok(esc(o))]
+        follow = rng.choice([[], chs('x'), [esc(c)], chs(' tail')])
+        rest = follow
+        tag = 'between-arguments'
+    return dict(kind='parse', sig=print_sig(args, rng), toks=toks + (follow if tag == 'end-of-call' else follow), nt=True,
+                tags=['absent-optional-then-escape', tag, 'spec:' + o + c], expect=dict(binds=binds, rest=rest))
+
+
 def repo_signatures():
     import core
     from translate import signatures
@@ -1515,6 +1566,8 @@ def streams(rng, tier, boost):
         c = parse_case(rng)
         if c:
             out.append(('calls', c))
+    for _ in range((200 if quick else 1500) * boost):
+        out.append(('calls', escape_call_case(rng)))
     # 8. enable level: typed arguments from several start levels, incl. type any / Tok / XTok / Args at end of input
     for _ in range((400 if quick else 3000) * boost):
         ty = rng.choice(['any', 'any', 'Tok', 'XTok', 'Args', 'Number', 'Dimen', 'Glue', 'MuDimen', 'MuGlue', 'str', None, 'cs', 'int', 'list'])
